@@ -379,6 +379,11 @@ def run(fx, tier):
     from c10 import config_copy_rule
     v.rule('R-FLOW', 'the hand-written copy constructors keep every configured CONNECT input')
     config_copy_rule(fx, v, 'C17')
+    # fixed-header flags that depend on the history of the packet: DUP (shared with C03)
+    from c03 import dup_flag_rule, set_dup_rule
+    dup_flag_rule(fx, v, 'C17')
+    v.rule('R-OWN', 'set_dup changes exactly the DUP bit')
+    set_dup_rule(fx, v, 'C17')
     v.expect_min('R-TABLE', 100, 'static_assert rows')
     v.expect_min('R-SCHEMA', 70, 'headers, lengths, fields of 15 encoders')
     v.expect_min('R-EFFECT', 10, 'encoder classes')
